@@ -375,6 +375,9 @@ func (g *gen) genFwd() fwdSpec {
 		f.recipient = append(make([]byte, 12), r.Bytes(20)...)
 		if r.Chance(25) {
 			f.hook = r.Bytes(32)
+			if r.Chance(30) {
+				f.hook = make([]byte, 32) // present, all zero: a hook identifier like any other, not "no hook"
+			}
 		}
 		if r.Chance(30) {
 			f.metadata = "0x" + hex.EncodeToString(r.Bytes(1+r.Intn(8)))
@@ -630,6 +633,11 @@ func (g *gen) genPacket() (world.Packet, pktInfo) {
 					info.shape += "-apart"
 				}
 			}
+		}
+		if (g.p.name == "C09" || g.p.name == "C05" || g.p.name == "C14") && g.p.pSwap == 0 && r.Chance(12) {
+			// an action identifier that is valid (and pausable) but has no controller on the chain, with well-formed attributes
+			spec.extra = append(spec.extra, extraAction{id: int32(core.ACTION_SWAP), attrs: &actiontypes.FeeAttributes{}})
+			info.shape += "/action-without-controller"
 		}
 		if r.Chance(g.p.pSwap) {
 			spec.swap, spec.swapFirst = true, r.Bool()
